@@ -259,18 +259,19 @@ def h_explain(gid, **a):
 
 # ------------------------------------------------------------------------------------------------- registration
 def register(prop, module_name, fn, mode_fixed, graphs, *, lemma, what, bounds, two=False, timeout=180.0, tier="quick",
-             stubs=(), name_prefix=None, extra_params=(), extra_pre=(), extra_example=None, cubes=None, example_index=None):
+             stubs=(), name_prefix=None, extra_params=(), extra_pre=(), extra_example=None, cubes=None, example_index=None,
+             example_a=None):
     """Instantiate template `fn` for each graph: parameters are the graph's symbolic dictionary (two of them if `two`)."""
     for g in graphs:
         if two:
             pa, prea = slot_params(g.universe, "a")
             pb, preb = slot_params(g.universe, "b")
             params, pre = pa + pb, prea + preb
-            ex = dict(params_from(g.universe, g.examples[0], "a"))
+            ex = dict(params_from(g.universe, g.examples[0] if example_a is None else example_a, "a"))
             ex.update(params_from(g.universe, g.examples[0], "b"))
         else:
             params, pre = slot_params(g.universe)
-            ex = params_from(g.universe, g.examples[(example_index or {}).get(g.gid, 0)])
+            ex = params_from(g.universe, g.examples[(example_index or {}).get(g.gid, 0)] if example_a is None else example_a)
         params = list(params) + list(extra_params)
         pre = list(pre) + list(extra_pre)
         if extra_example:
@@ -378,3 +379,93 @@ def _is_cached_body(spec, name):
         if s[0] == "ds" and s[1] == name:
             return s[3].get("cache", "mem") != "no"
     return False
+
+
+# ------------------------------------------------------------------------------------------------- C12
+class CustomError(Exception):
+    pass
+
+
+def _exc_factories():
+    return [
+        lambda m: ValueError(m), lambda m: KeyError(m), lambda m: RuntimeError(m), lambda m: CustomError(m),
+        lambda m: EvaluationError(m, None), lambda m: KeyNotFoundError("USERKEY", None),
+    ]
+
+
+EXC_NAMES = ["ValueError", "KeyError", "RuntimeError", "custom Exception subclass", "EvaluationError", "KeyNotFoundError"]
+
+
+def fault_names(spec):
+    ns = names(spec, kinds=("body", "cb", "eff"))
+    kinds = {s[0] for s in walk(spec)}
+    if "case" in kinds:
+        ns.append("pred")
+    if "applyopt" in kinds:
+        ns.append("step")
+    return ns[:5]
+
+
+def h_fault(gid, xk, hist=False, **a):
+    g = GRAPHS[gid]
+    o = mkdict(g.universe, a, "a") if hist else mkdict(g.universe, a)
+    fn = fault_names(g.spec)
+    faults = {n: bool(a.get("f%d" % i, False)) for i, n in enumerate(fn)}
+    mkexc = _exc_factories()[xk]
+    env_r, env_x = Env(faults, exc=mkexc), Env(faults, exc=mkexc)
+    real = fresh(g, env_r)
+    err = None
+    with quiet():
+        try:
+            value = real(o)
+            got = ("ok", value)
+        except EvaluationError as e:
+            err = e
+            got = ("fail",)
+        except Exception as e:
+            note("graph", gid, "options", o, "faults", faults, "a non-EvaluationError escaped evaluate()", type(e).__name__)
+            return 0
+    exp = ref_out(g.spec, o, env_x)
+    note("graph", gid, "options", o, "faults", faults, "exception type", EXC_NAMES[xk], "real", got if err is None else ("fail", [type(x).__name__ for x in chain(err)]),
+         "reference", exp)
+    if _ok(got) != _ok(exp):
+        return 0
+    if _ok(got):
+        if not same(got[1], exp[1]):
+            return 0
+    else:
+        # the source is the object evaluate() was called on; the cause chain leads to the original exception
+        if err.source is not real:
+            return 0
+        ch = chain(err)
+        root = ch[-1]
+        if exp[1] == "user":
+            if not env_r.raised or not any(root is x for x in env_r.raised):
+                # the root may legitimately be a KeyError/... raised by user code; it must be the very object
+                if not any(any(c is x for x in env_r.raised) for c in ch):
+                    return 0
+        if exp[1] == "missing":
+            mk = missing_key(err)
+            if mk is None:
+                return 0
+            if exp[2] is not None and mk != exp[2] and ref_exists(o, mk):
+                return 0          # the key reported as missing is present (several keys may be missing: any of them is fine)
+    if not hist:
+        return 2 if not _ok(got) else 1
+    # history on the same long-lived graph: a failed evaluation stores nothing
+    env_r.faults.clear()
+    ob = mkdict(g.universe, a, "b")
+    full = dict(ob)
+    for k, v in o.items():
+        if k not in full:
+            full[k] = v
+    with quiet():
+        for o2 in (o, full, o):
+            again = outcome(lambda: real(o2))
+            clean = outcome(lambda: fresh(g, Env())(o2))
+            note("later evaluation", o2, "long-lived graph", again, "fresh graph", clean)
+            if _ok(again) != _ok(clean):
+                return 0
+            if _ok(again) and not same(again[1], clean[1]):
+                return 0
+    return 2 if not _ok(got) else 1
